@@ -158,8 +158,8 @@ def _work(job):
             # waiting, server priority functions), same stepwise comparison from the implementation's own snapshots and draws
             import engine_k2b
             if engine_k2b.in_scope(cfg):
-                k2 = engine_k2b.check_trace(tr, _DRV, max_frames=getattr(prop, 'k2_frames', 60) * job.get('k2x', 1), mask=(getattr(prop, 'k2_mask2', None) or prop.k2_mask) or None)
-                res['k2b'] = {'frames': k2['frames'], 'other': k2['other']}
+                k2 = engine_k2b.check_trace(tr, _DRV, max_frames=getattr(prop, 'k2_frames', 60) * job.get('k2x', 1), mask=(getattr(prop, 'k2_mask2', None) or prop.k2_mask) or None, inv_mask=getattr(prop, 'k2_invs2', set()))
+                res['k2b'] = {'frames': k2['frames'], 'other': k2['other'], 'inv_frames': k2.get('inv_frames', 0), 'inv_other': k2.get('inv_other', 0)}
                 if k2['mismatch'] and 'soft' not in res:
                     res['soft'] = {'clause': 900, 'frame': k2['mismatch'].get('frame'), 'k2': k2['mismatch'], 'stage': 2}
     res['nontrivial'] = bool(prop.nontrivial(tr)) and len(tr.frames) >= prop.min_frames
@@ -263,6 +263,20 @@ def proof_step(pid, thorough=False):
             # every theorem must be followed by Print Assumptions
             out['ok'] = False
             out['log'].append('fewer Print Assumptions outputs (%d) than theorems (%d)' % (closed + n_ax_blocks, len(thms)))
+    # statements about the stage-2 engine model live in a file of their own (State2 / Engine2 share names with State / Engine)
+    pf2 = os.path.join(COQ, 'Properties', pid + '_stage2.v')
+    if os.path.exists(pf2):
+        thms2 = re.findall(r'^(?:Theorem|Lemma|Corollary|Example)\s+(\w+)', open(pf2).read(), flags=re.M)
+        out['obligations'] += len(thms2)
+        out['theorems'] = out['theorems'] + ['stage2.' + t for t in thms2]
+        r2 = subprocess.run('timeout 900 coqc %s Properties/%s_stage2.v' % (qflags, pid), shell=True, cwd=COQ, capture_output=True, text=True)
+        txt2 = r2.stdout + r2.stderr
+        closed2 = txt2.count('Closed under the global context')
+        if r2.returncode != 0 or 'Axioms:' in txt2 or closed2 < len(thms2):
+            out['ok'] = False
+            out['broken'] = out.get('broken') or 'Properties/%s_stage2.v' % pid
+            out['log'].append('coqc Properties/%s_stage2.v: rc=%d, %d of %d closed: %s' % (pid, r2.returncode, closed2, len(thms2), txt2[-800:]))
+        out['discharged'] = out.get('discharged', 0) + min(closed2, len(thms2))
     bad = scan_sources()
     if bad:
         out['ok'] = False
@@ -402,6 +416,8 @@ def run_check(pid, tier, seed, replay=None):
             k2tot['stage2_runs'] = k2tot.get('stage2_runs', 0) + 1
             k2tot['stage2_frames'] = k2tot.get('stage2_frames', 0) + r['k2b']['frames']
             k2tot['stage2_other_slices_diverged'] = k2tot.get('stage2_other_slices_diverged', 0) + r['k2b']['other']
+            k2tot['stage2_real_snapshots_satisfying_the_T2_invariants'] = k2tot.get('stage2_real_snapshots_satisfying_the_T2_invariants', 0) + r['k2b'].get('inv_frames', 0)
+            k2tot['stage2_snapshots_failing_an_invariant_of_another_property'] = k2tot.get('stage2_snapshots_failing_an_invariant_of_another_property', 0) + r['k2b'].get('inv_other', 0)
         if r.get('k2'):
             k2tot['runs'] += 1
             k2tot['frames'] += r['k2']['frames']
